@@ -19,8 +19,16 @@ Proof.
   destruct (langid_from_bytes_total s) as [[v ->]|[e ->]]; auto with tot.
 Qed.
 
+(* the executable serde specifications that judge the implementation in the correspondence run are corollaries of
+   the theorems above: the MODEL's answer passes them on every input *)
+From UL Require Oracle OracleSound OracleSoundRest.
+Theorem C19_oracle_spec_sound : forall op args r,
+  Oracle.oracle_model_serde op args = Some r -> OracleSound.passes (Oracle.oracle_spec_serde op args r).
+Proof. exact OracleSoundRest.serde_sound. Qed.
+
 Print Assumptions C19_ser_is_canonical_string.
 Print Assumptions C19_roundtrip.
 Print Assumptions C19_de_iff_parse.
 Print Assumptions C19_nonstring_err.
 Print Assumptions C19_total.
+Print Assumptions C19_oracle_spec_sound.
